@@ -38,10 +38,14 @@ pub fn idiom_number_from_usize(n: usize) -> (r: Number) ensures r == num_of_usiz
 pub uninterp spec fn f64_abs(x: f64) -> f64;
 pub uninterp spec fn f64_ceil(x: f64) -> f64;
 pub uninterp spec fn f64_floor(x: f64) -> f64;
+pub uninterp spec fn f64_trunc(x: f64) -> f64;
+pub uninterp spec fn f64_round(x: f64) -> f64;
 pub trait F64Idioms {
     fn idiom_abs(self) -> f64;
     fn idiom_ceil(self) -> f64;
     fn idiom_floor(self) -> f64;
+    fn idiom_trunc(self) -> f64;
+    fn idiom_round(self) -> f64;
 }
 impl F64Idioms for f64 {
     #[verifier::external_body]
@@ -50,6 +54,12 @@ impl F64Idioms for f64 {
     fn idiom_ceil(self) -> (r: f64) ensures r == f64_ceil(self), f64_finite(self) ==> f64_finite(r) { self.ceil() }
     #[verifier::external_body]
     fn idiom_floor(self) -> (r: f64) ensures r == f64_floor(self), f64_finite(self) ==> f64_finite(r) { self.floor() }
+    // the other members of the rounding family, each its own function: a body that swaps one for another cannot be
+    // proved to compute the specified one
+    #[verifier::external_body]
+    fn idiom_trunc(self) -> (r: f64) ensures r == f64_trunc(self), f64_finite(self) ==> f64_finite(r) { self.trunc() }
+    #[verifier::external_body]
+    fn idiom_round(self) -> (r: f64) ensures r == f64_round(self), f64_finite(self) ==> f64_finite(r) { self.round() }
 }
 pub uninterp spec fn f64_add(a: f64, b: f64) -> f64;
 pub uninterp spec fn f64_div(a: f64, b: f64) -> f64;
